@@ -269,6 +269,63 @@ func lockstepVerdict(f *ast.File, group map[string]bool, derived []string) strin
 	return verdict
 }
 
+// the raw material of the verdict, for the Coq side (model/IngestShared.v section 6): every statement list of the file that changes the
+// length of a member, as the changes in source order, and whether a control-flow statement stands between the first and the last
+func lockstepBlocks(f *ast.File, group map[string]bool) []string {
+	var out []string
+	visitList := func(list []ast.Stmt) {
+		first, last := -1, -1
+		var chs []string
+		for i, st := range list {
+			if ch, ok := classifyChange(st, group); ok {
+				if first < 0 {
+					first = i
+				}
+				last = i
+				k := ""
+				switch {
+				case ch.kind == "append1":
+					k = "ChAppend1"
+				case ch.kind == "reset":
+					k = "ChReset"
+				case ch.kind == "make0":
+					k = "ChMake0"
+				case strings.HasPrefix(ch.kind, "make:"):
+					k = "ChMakeE " + q(strings.TrimPrefix(ch.kind, "make:"))
+				default:
+					k = "ChOther " + q(firstN(strings.TrimPrefix(ch.kind, "other:"), 60))
+				}
+				chs = append(chs, "("+q(ch.member)+", "+k+")")
+			}
+		}
+		if len(chs) == 0 {
+			return
+		}
+		cf := false
+		for i := first + 1; i < last; i++ {
+			switch list[i].(type) {
+			case *ast.ReturnStmt, *ast.BranchStmt, *ast.IfStmt, *ast.ForStmt, *ast.RangeStmt, *ast.SwitchStmt, *ast.GoStmt, *ast.DeferStmt:
+				if _, ok := classifyChange(list[i], group); !ok {
+					cf = true
+				}
+			}
+		}
+		out = append(out, fmt.Sprintf("([%s], %v)", strings.Join(chs, "; "), cf))
+	}
+	ast.Inspect(f, func(n ast.Node) bool {
+		switch x := n.(type) {
+		case *ast.BlockStmt:
+			visitList(x.List)
+		case *ast.CaseClause:
+			visitList(x.Body)
+		case *ast.CommClause:
+			visitList(x.Body)
+		}
+		return true
+	})
+	return out
+}
+
 func firstN(s string, n int) string {
 	if len(s) > n {
 		return s[:n]
@@ -277,7 +334,7 @@ func firstN(s string, n int) string {
 }
 
 func writeLockstep(b *strings.Builder, root string, files []string, parsed map[string]*ast.File) {
-	var rows []string
+	var rows, blocks []string
 	for _, p := range files {
 		rel, _ := filepath.Rel(root, p)
 		if !strings.HasPrefix(rel, "utils/unmarshal/") || strings.Contains(rel, "/legacy/") {
@@ -343,12 +400,21 @@ func writeLockstep(b *strings.Builder, root string, files []string, parsed map[s
 				}
 				sort.Strings(ms)
 				rows = append(rows, "("+q(rel)+", "+q(recvName(fd))+", "+q(verdict)+", "+q(strings.Join(ms, " ")+" | "+strings.Join(derived, " "))+")")
+				if bad == "" && literals == 0 {
+					var dv []string
+					for _, d := range derived {
+						dv = append(dv, strings.ReplaceAll(d, " ", ""))
+					}
+					blocks = append(blocks, "("+q(rel)+", "+q(recvName(fd))+", "+strList(ms)+", "+strList(dv)+",\n    ["+strings.Join(lockstepBlocks(f, group), ";\n     ")+"])")
+				}
 				return true
 			})
 		}
 	}
 	b.WriteString("(* non-literal onEntries call sites: (file, function, \"lockstep\" or why not, members | derived lengths) *)\n")
 	b.WriteString("Definition gen_on_entries_lockstep : list (string * string * string * string) := [\n  " + strings.Join(rows, ";\n  ") + "].\n")
+	b.WriteString("(* the same sites with the length-changing statement lists of their file: (file, function, members, derived lengths, [(changes in order, control flow between)]) *)\n")
+	b.WriteString("Definition gen_lockstep_blocks : list (string * string * list string * list string * list (list (string * chg) * bool)) := [\n  " + strings.Join(blocks, ";\n  ") + "].\n")
 }
 
 // the NDJSON framing loops: every Decode method under utils/unmarshal/ (not legacy) that makes a bufio.Scanner
